@@ -15,7 +15,7 @@ use kurbo::{BezPath, CubicBez, Line, ParamCurve, ParamCurveArclen, PathSeg, Poin
 use std::sync::OnceLock;
 
 pub fn prop() -> Prop {
-    Prop { id: "C03", corr, laws, extra, law_budget: (400, 40000) }
+    Prop { id: "C03", corr, laws, extra, law_budget: (400, 30000) }
 }
 
 // ------------------------------------------------------------------ reference integrator
@@ -525,7 +525,12 @@ fn inv_arclen_shadow(s: &PathSeg, target: f64, accuracy: f64) -> (f64, bool) {
         }
     };
     test(a, b);
+    let mut tiny_y = false;
     for (x, y) in evals {
+        // the interpolation step can land on the root to rounding accuracy: the sign of y is then noise
+        if y.abs() <= 1e-11 * total {
+            tiny_y = true;
+        }
         if y > 0.0 {
             b = x;
         } else if y < 0.0 {
@@ -533,11 +538,11 @@ fn inv_arclen_shadow(s: &PathSeg, target: f64, accuracy: f64) -> (f64, bool) {
         }
         test(a, b);
     }
-    (r, knife)
+    (r, knife || tiny_y)
 }
 
 fn corr(r: &mut Rng, thorough: bool, o: &mut Out) {
-    let n = if thorough { 3000 } else { 160 };
+    let n = if thorough { 2000 } else { 160 };
     let max_work: u64 = if thorough { 3000 } else { 400 };
     // ---- lines (op 1, 2)
     for i in 0..n {
@@ -694,13 +699,42 @@ fn corr(r: &mut Rng, thorough: bool, o: &mut Out) {
         }
     }
     o.notes.push(format!(
-        "inv-arclen correspondence: {} generated cases left out because ITP's loop test b - a > 2 epsilon sat within 1e-9 relative of equality (structural: the projection step keeps the bracket at exactly the admissible width); {} compared",
+        "inv-arclen correspondence: {} generated cases left out because a decision of the ITP loop sat on rounding noise: the loop test b - a > 2 epsilon within 1e-9 relative of equality (structural: the projection step keeps the bracket at exactly the admissible width) or an evaluated |f| below 1e-11 of the length (the interpolation step landed on the root); {} compared",
         knife_edge, done
     ));
     for _ in 0..n / 4 {
         let l = Line::new(gpt(r), gpt(r));
         let target = l.arclen(1e-3) * r.uniform(-0.2, 1.2);
         o.case(8, "pathseg-inv-arclen", with(&enc_seg(&PathSeg::Line(l)), &[target, 1e-3]), vec![PathSeg::Line(l).inv_arclen(target, 1e-3)], true, "line");
+    }
+    // ---- solve_itp driven directly (op 10): exact f, including epsilon far below the resolution of f64
+    // (the loop then leaves through the collapsed-bracket test of repair 75101ed) and budgets nmax > 64
+    for i in 0..n {
+        let lo = r.uniform(0.1, 2.0);
+        let hi = lo + r.uniform(0.5, 3.0);
+        let c = {
+            let m = r.uniform(lo, hi);
+            m * m
+        };
+        let eps = match i % 4 {
+            // (epsilon below 2^-1023 of the bracket, e.g. subnormal or 0, is not generated: 2^min(nmax,1023) *
+            // epsilon is then smaller than half the bracket, r < 0, the projected point is an end point of the
+            // bracket and the loop makes no progress -- solve_itp does not return even after repair 75101ed)
+            0 => log_uniform(r, 1e-30, 1e-17),
+            1 => log_uniform(r, 1e-300, 1e-40),
+            _ => log_uniform(r, 1e-12, 1e-2),
+        };
+        let n0 = r.below(3) as usize;
+        let k1 = r.uniform(0.05, 0.4) / (hi - lo);
+        let (ya, yb) = (lo * lo - c, hi * hi - c);
+        if !(ya < 0.0 && yb > 0.0) {
+            continue;
+        }
+        kurbo::verif::reset();
+        let x = kurbo::common::solve_itp(|x| x * x - c, lo, hi, eps, n0, k1, ya, yb);
+        let w = kurbo::verif::work();
+        let tag = if eps < 1e-35 { "eps<2^-116" } else if eps < 1e-16 { "eps-below-resolution" } else { "ordinary" };
+        o.case(10, "solve-itp-direct", vec![lo, hi, eps, n0 as f64, k1, c], vec![x, w as f64], true, tag);
     }
     // ---- perimeter (op 9)
     for i in 0..n / 3 {
